@@ -24,7 +24,8 @@ EXPLANATION = (
     "reshape; (R5) the 15 positional kernel arguments receive the right quantities at both call sites; (R6) the read plan the "
     "folding loop consumes satisfies C01's rules (re-evaluated here, with C02's stream rules). Together these "
     "make the cube independent of the gulp. Not decided: values of the phase formula, single-bin occupancy of a pulse "
-    "train, sub-range folding semantics."
+    "train, sub-range folding semantics. "
+    "Since F38/F46: the delays handed to fold are counted from the earliest channel and the phase index is advanced by the same lead (R3); tsamp, period and accel are float64 in every numba signature of fold (R1)."
 )
 
 
